@@ -1,0 +1,50 @@
+//go:build verif
+
+package krpc
+
+// Machine-checked contracts, read by the govc verifier under /verif. Comment-only.
+// C15 (and the decoder half of C01): the compact element codecs. A compact address is the IP bytes followed by the
+// port, big-endian; a compact node is the 20-byte ID followed by a compact address.
+
+//@ func (encoding/binary.bigEndian).Uint16
+//@   inline
+
+//@ func (*dht/krpc.NodeAddr).UnmarshalBinary
+//@   requires nonnil: me != nil
+//@   modifies me.IP, me.Port
+//@   ensures too-short-is-an-error: len(b) < 2 ==> result != nil
+//@   ensures decoded: len(b) >= 2 ==> result == nil && len(me.IP) == len(b) - 2 && me.Port == (int(b[len(b)-2]) << 8 | int(b[len(b)-1]))
+//@   ensures ip-bytes: len(b) >= 2 ==> bstr(me.IP) == old(bstr(subslice(b, 0, len(b)-2)))
+//@   ensures port-in-range: len(b) >= 2 ==> 0 <= me.Port && me.Port < 65536
+
+//@ func (*dht/krpc.NodeInfo).UnmarshalBinary
+//@   requires nonnil: ni != nil
+//@   modifies ni.ID, ni.Addr.IP, ni.Addr.Port
+//@   ensures too-short-is-an-error: len(b) < 22 ==> result != nil
+//@   ensures decoded: len(b) >= 22 ==> result == nil && len(ni.Addr.IP) == len(b) - 22 && ni.Addr.Port == (int(b[len(b)-2]) << 8 | int(b[len(b)-1]))
+//@   ensures id-bytes: len(b) >= 22 ==> (forall k int :: 0 <= k && k < 20 ==> ni.ID[k] == old(b[k]))
+
+// the compact list decoder is built on package reflect: its arithmetic is checked with the reflect calls abstracted
+//@ func (dht/krpc.elemSizer).ElemSize
+//@   trusted
+//@   option noalloc
+//@   option records elemsize
+//@   ensures one-of-the-compact-entry-sizes: result == 6 || result == 18 || result == 20 || result == 26 || result == 38
+//@ func (dht/krpc.CompactIPv4NodeAddrs).ElemSize
+//@   ensures six: result == 6
+//@ func (dht/krpc.CompactIPv6NodeAddrs).ElemSize
+//@   ensures eighteen: result == 18
+//@ func (dht/krpc.CompactIPv4NodeInfo).ElemSize
+//@   ensures twenty-six: result == 26
+//@ func (dht/krpc.CompactIPv6NodeInfo).ElemSize
+//@   ensures thirty-eight: result == 38
+//@ func (dht/krpc.CompactInfohashes).ElemSize
+//@   ensures twenty: result == 20
+//@ func dht/krpc.unmarshalBinarySlice
+//@   arith int
+//@   option abstract-reflect
+//@   requires nonnil: slice != nil
+//@   modifies *
+//@   ensures only-whole-elements: result == nil ==> len(b) % recorded("elemsize") == 0
+//@   loop 1
+//@     invariant whole-elements-consumed: len(b) <= old(len(b)) && (old(len(b)) - len(b)) % bytesPerElem == 0 && (bytesPerElem == 6 || bytesPerElem == 18 || bytesPerElem == 20 || bytesPerElem == 26 || bytesPerElem == 38) && bytesPerElem == recorded("elemsize") && err == nil
